@@ -336,5 +336,11 @@ class C02(Prop):
             Enumeration("reply_cut_sets_le2_and_uniform", self.reply_cases, exhaustive=True),
         ]
 
+    def extra(self, tier, seed, acc):
+        if tier != "thorough":
+            return None
+        from harness import fuzzstage
+        return fuzzstage.run("c02", acc, seed)
+
 
 PROP = C02()
